@@ -2238,12 +2238,19 @@ class DesignSpace:
             msg = f"The variable {current_name} is not in the design space."
             raise ValueError(msg)
 
-        for dictionary in [self.normalize, self._variables, self.__names_to_indices]:
-            dictionary[new_name] = dictionary.pop(current_name)
+        # Rename in place: the variable shall keep its position in the design space.
+        for dictionary in [
+            self.normalize,
+            self._variables,
+            self.__names_to_indices,
+            self._current_value,
+        ]:
+            items = list(dictionary.items())
+            dictionary.clear()
+            for name, value in items:
+                dictionary[new_name if name == current_name else name] = value
 
-        current_value = self._current_value.pop(current_name, None)
-        if current_value is not None:
-            self._current_value[new_name] = current_value
+        self.__clear_dependent_data()
 
     def initialize_missing_current_values(self) -> None:
         """Initialize the current values of the design variables when missing.
